@@ -16,6 +16,21 @@ type executionContext struct {
 }
 
 func (e *executionContext) AppendLog(ctx context.Context, log *ledger.Log) (*ledger.ChainedLog, chan struct{}, error) {
+	return e.appendLog(ctx, func() *ledger.Log {
+		return log
+	})
+}
+
+// appendLog builds a log, chains it and hands it to the batcher in one critical
+// section: the ids allocated while building (transaction id) and chaining (log
+// id, hash of the predecessor) reach the store in the order they were allocated,
+// whatever the interleaving of concurrent writers.
+func (e *executionContext) appendLog(ctx context.Context, build func() *ledger.Log) (*ledger.ChainedLog, chan struct{}, error) {
+	if !e.parameters.DryRun {
+		e.commander.appendMu.Lock()
+		defer e.commander.appendMu.Unlock()
+	}
+	log := build()
 	if e.parameters.IdempotencyKey != "" {
 		log = log.WithIdempotencyKey(e.parameters.IdempotencyKey)
 	}
